@@ -88,8 +88,12 @@ def generate(seed: int, tier: str) -> dict:
         elif r < 0.92:
             events.append({"ev": "drop", "d": d})
             live.discard(d)
+            if rng.random() < 0.5:
+                events.append({"ev": "reuse_probe"})
         else:
             events.append({"ev": "gc"})
+            if rng.random() < 0.5:
+                events.append({"ev": "reuse_probe"})
     return {"prop": "C10", "engine": "registry", "seed": seed, "tier": tier, "docs": docs, "events": events, "base": base}
 
 
@@ -190,9 +194,43 @@ def execute(case: dict):
             kind = ev["ev"]
             bump("event:" + kind)
             if kind == "gc":
-                before = len(resolution._CONTEXTS)
+                before_ids = set(resolution._CONTEXTS)
                 gc.collect()
-                bump("volatile:registry_entries_collected", max(0, before - len(resolution._CONTEXTS)))
+                gone = before_ids - set(resolution._CONTEXTS)
+                dead_ids.update(gone)
+                bump("volatile:registry_entries_collected", len(gone))
+                continue
+            if kind == "reuse_probe":
+                # Force address reuse inside the case: right after objects died, allocate fresh context-free
+                # identifiers (a document without any scope) until one lands on a dead address, then resolve it.
+                # It has no scope chain, so the only acceptable outcome is ResolutionError.
+                keep = []
+                for _k in range(40):
+                    psrc = parse("{ x = n1; y = n2; z = n3; }")
+                    keep.append(psrc)
+                    for key in ("x", "y", "z"):
+                        ident = psrc[key]
+                        keep.append(ident)
+                        if id(ident) in dead_ids:
+                            bump("probe:address_reuse")
+                        try:
+                            with StepBudget(STEP_BUDGET, prefix):
+                                val = ident.value
+                            got = reader.tokens_of_text(val.rebuild() if hasattr(val, "rebuild") else str(val))
+                            viols.append(Violation("C10.foreign_value", "an identifier of a fresh document without any scope resolved to %r: the value comes from another (discarded) document's context" % (got,), step,
+                                                   {"doc": None, "what": "reuse_probe", "expected": "unbound", "reused_address": id(ident) in dead_ids}))
+                            break
+                        except ResolutionError:
+                            pass
+                        except BudgetExceeded:
+                            viols.append(Violation("C10.unbounded", "resolution of a context-free identifier did not finish", step, {"doc": None, "what": "reuse_probe"}))
+                            break
+                    if viols:
+                        break
+                bump("reuse_probe_identifiers", 3 * len(keep) // 4)
+                del keep
+                if viols:
+                    break
                 continue
             d = ev["d"]
             if kind == "create":
@@ -208,11 +246,13 @@ def execute(case: dict):
                     texts[d] = src.rebuild()
                 except Exception:  # noqa: BLE001
                     pass
+                before_ids = set(resolution._CONTEXTS)
                 for c in copies.get(d, []):
                     dead_ids.add(id(c))
                 del live[d]
                 copies[d] = []
                 src = None
+                dead_ids.update(before_ids - set(resolution._CONTEXTS))
                 dead = sum(1 for r, _ in list(resolution._CONTEXTS.values()) if r() is None)
                 bump("probe:dead_registry_entries", dead)
                 continue
